@@ -126,7 +126,18 @@ let run_qw t =
   let fail_answer () = WFail (match failing with Some e -> e | None -> assert false) in
   (* the peer reads exactly `fat` bytes before it stops / closes / falls silent: Quinn can take at most the window beyond that *)
   let allowed () = if peer_fault then fat_i + eff - !accepted_total else max_int in
-  let poll_fin () = match poll_finish !s with (Ready r, s') -> s := s'; r | (Pending, s') -> s := s'; failwith "finish pending" in
+  (* `poll_fn(|cx| poll_finish(cx)).await`: polled to completion; a pending write is drained first, Quinn
+     taking at most a window at a time (or failing, after a local finish) *)
+  let poll_fin () =
+    let guard = ref 0 and out = ref None in
+    while !out = None do
+      incr guard; if !guard > 100000 then failwith "model finish loop";
+      let oracle = if fname = "afin" then [fail_answer ()] else [WAccept (n_of_int (max 1 win)); WBlocked] in
+      (match poll_finish oracle !s with
+       | ((Ready r, s'), _) -> s := s'; out := Some r
+       | ((Pending, s'), _) -> s := s')
+    done;
+    (match !out with Some r -> r | None -> assert false) in
   if fname = "afin" then (match poll_fin () with Ok _ -> () | r -> res := "finerr:" ^ res_unit r);
   let sent = ref 0 in
   let stop = ref false in
@@ -269,7 +280,7 @@ let run_qw t =
   let fault_in_frames = peer_fault && fat_i < framed_total in
   let sres = match fname with
     | "none" | "areset" -> "ok"
-    | "cfin" -> "*"
+    | "cfin" -> "ok"
     | "lclose" -> if ps_len = None then fault_class else "ok"
     | _ when peer_fault -> if fault_in_frames then fault_class else "ok"
     | _ -> fault_class in
@@ -283,6 +294,9 @@ let run_qw t =
        | _ -> "-") in
   let srecv = if fname = "none" then
       digest (spec_handed (List.map (fun (_, f) -> EvAccepted f) handed_frames @ [EvRaw ps_bytes]))
+    else if fname = "cfin" then
+      (* every buffer accepted before the stream was finished, whole - the abandoned one included *)
+      digest (spec_handed (List.filter_map (fun (j, f) -> if j <= fat_i then Some (EvAccepted f) else None) handed_frames))
     else "*" in
   let send_ = match fname with
     | "none" | "afin" | "cfin" -> "fin" | "stop" -> "stopped" | "close" -> "closed" | "timeout" -> "silent"
@@ -296,7 +310,7 @@ let run_qw t =
       (if !dblp_out <> "-" then refusal else "-")
       sps
       (if !psp_out <> "-" then "panic" else "-")
-      (if fname = "cfin" then " trunc=*" else "")
+      (if fname = "cfin" then " trunc=no" else "")
       (match !fin2 with Some _ -> " fin2=err:unknown" | None -> "") in
   model ^ " | " ^ spec
 
